@@ -506,6 +506,6 @@ pub fn run_case(rng: &mut Rng, rep: &mut Report) {
 }
 
 pub fn run(cfg: &RunCfg) -> Report {
-    let cases = cfg.cases(1_500_000, 30_000_000);
+    let cases = cfg.cases(1_500_000, 150_000_000);
     run_cases(cfg, 0, cases, Duration::from_secs(3600), |_c, rng, rep| run_case(rng, rep))
 }
